@@ -352,6 +352,28 @@ Section Example2.
     - intros [a b] [a' b'] x v [Hx|[]] H; subst x; reflexivity.
     - unfold upd2; simpl. f_equal.
   Qed.
+  (** ** Order obligation of Tolerancing.reset: Optic.update() has to run after ALL variable resets.
+      [reset_restores] proves that the order of the code (perturbations, compensators, update) restores the nominal lens
+      under [update_laws].  The other order (update between the perturbation resets and the compensator resets) does
+      not: with the pickup above depending on the compensated coordinate, the state reached after one compensation
+      (first coordinate moved to 65, update applied) is restored by [treset] but not by the early-update variant. *)
+  Definition treset_update_early {O : Ops} (L X : Type) (vset : L -> X -> T O -> L) (upd : L -> L)
+             (pv cv : list (var (O:=O) X)) (l : L) : L :=
+    reset_vars vset cv (upd (reset_vars vset pv l)).
+  Theorem reset_order_sensitive :
+    let l0 : L2 := (60, -60) in
+    let cv := map (mkvar (O:=ROps) get2 l0) [true] in
+    let l := upd2 (set2 l0 true 65) in
+    reach (O:=ROps) set2 upd2 [true] l0 l /\
+    treset (O:=ROps) set2 upd2 [] cv l = l0 /\
+    treset_update_early (O:=ROps) set2 upd2 [] cv l <> l0.
+  Proof.
+    intros l0 cv l. split; [|split].
+    - apply reach_upd. apply reach_set; [constructor|left; reflexivity].
+    - cbv [l cv l0 treset reset_vars upd2 set2 get2 mkvar map fold_left vx vinit fst snd]. reflexivity.
+    - cbv [l cv l0 treset_update_early reset_vars upd2 set2 get2 mkvar map fold_left vx vinit fst snd].
+      intro Heq. inversion Heq. lra.
+  Qed.
   (** and the machine really runs on it: one Monte-Carlo trial with a scalar sampler, row = fresh evaluation *)
   Example run_example :
     let pv := map (mkvar (O:=ROps) get2 (60, 5)) [true] in
